@@ -29,6 +29,14 @@ RULE = ('exhaustive small scope (recording length x window length x all sorted s
         'sorted / as stored / every channel; multi-file flat recordings of up to 12 files whose names in the order GIVEN are not '
         'in lexicographic order (numbered parts t9/t10/t11, descending names, parts in different directories, arbitrary names '
         'and raw extensions), passed as list or tuple of Path or str, also as the dat_path list of TemplateModel. '
+        'Stage 6: in one case in three every sample of the recording that belongs to no requested window (other rows, channels no '
+        'spike lists, in particular the last channel that index -1 aliases; unmapped raw columns on the TemplateModel route) holds '
+        'NaN / +inf / -inf / the largest finite magnitude (float32, float64) or +-32767/-32768 (int16); in one export / store case in '
+        'four something is already at the export path: an earlier export_waveforms of as many spikes from the same recording (other '
+        'samples and channel rows, or only another unit factor), a complete .npy of the declared shape with other numbers, one with '
+        'more / fewer spikes, of another dtype, a truncated one, bytes that are no .npy, a symbolic link (live, dangling); the store '
+        'files of a TemplateModel directory written twice (save_spikes_subset_waveforms called again with another factor); the '
+        'export path given as absolute str, pathlib.Path, or str / Path relative to the working directory. '
         'Non-trivial = at least one spike whose window overflows the recording, touches a chunk/file '
         'boundary or uses a -1 channel, or (model route) a store is present; distinct = distinct abstract input.')
 EXHAUSTIVE = {'quick': True, 'thorough': True}
